@@ -86,7 +86,10 @@ class C17(Check):
             return
         if comps in SAMPLES[:3] or paired:
             yield ("gap=0.3", (spec, build, comps, rl, paired, (("gap", "0.3"),)))
-            yield ("max_minor_solutions=3", (spec, build, comps, rl, paired, (("max_minor_solutions", "3"),)))
+            # a parameter whose effect is unmistakable: no variant can pass the filters
+            yield ("min_coverage=1000", (spec, build, comps, rl, paired, (("min_coverage", "1000"),)))
+            if len(comps) == 2:     # with three phased copies the enumeration of tied refinements takes minutes
+                yield ("max_minor_solutions=3", (spec, build, comps, rl, paired, (("max_minor_solutions", "3"),)))
             if paired:
                 yield ("phase=false", (spec, build, comps, rl, paired, (("phase", "false"),)))
 
@@ -127,8 +130,13 @@ class C17(Check):
                 os.remove(f)
         pargs = [x for k, v_ in params for x in ("--param", f"{k}={v_}")]
         base = [sys.executable, "-W", "ignore", "-m", "aldy", "genotype", "-v", "critical", "-g", gene_arg]
-        r1 = subprocess.run(base + prof_args + genome + pargs + ["--debug", pre, "-o", os.path.join(d, "out1.aldy"), spath],
+        # the archive is always written by a run WITHOUT the extra parameters; they are given on the replay
+        # and, for comparison, to a direct run on the alignments
+        r1 = subprocess.run(base + prof_args + genome + ["--debug", pre, "-o", os.path.join(d, "out0.aldy" if pargs else "out1.aldy"), spath],
                             env=env, cwd=d, capture_output=True, text=True)
+        if pargs:
+            r1 = subprocess.run(base + prof_args + genome + pargs + ["-o", os.path.join(d, "out1.aldy"), spath],
+                                env=env, cwd=d, capture_output=True, text=True)
         v = []
         if not os.path.exists(pre + ".tar.gz"):
             return Outcome([("dump/no-archive", f"{comps}: archive not written; {r1.stderr[-300:]}")], key=("noarchive",), nontrivial=True)
